@@ -286,14 +286,21 @@ def run_queries(path, queries, values, raw):
     return out, props
 
 
-def read_back(path, values):
-    """raw content of the saved file, canonicalised"""
+TAIL = {}          # what read_back found after the pickle (bytes that are not part of the dump)
+
+
+def read_back(path, values, old_bytes=OLD_CONTENT):
+    """raw content of the saved file (ALL its bytes), canonicalised"""
+    TAIL.clear()
     with open(path, "rb") as f:
         data = f.read()
-    if data == OLD_CONTENT:
+    if data == old_bytes:
         return "old", None, None
     try:
-        raw = pickle.loads(data)
+        bio = io.BytesIO(data)
+        raw = pickle.Unpickler(bio).load()
+        TAIL["n"] = len(data) - bio.tell()
+        TAIL["bytes"] = data[bio.tell():]
     except Exception:
         return "truncated", None, None
     frames = []
@@ -376,9 +383,15 @@ def _impl(c, tmp):
     ent = prog["entry"]
     out = os.path.join(tmp, "out", "frames.pkl")
     os.makedirs(os.path.dirname(out))
+    old_bytes = OLD_CONTENT
     if c.get("pre") is not None:
+        if c.get("pre_kind") == "prior_dump":
+            old_bytes = b""                      # replaced below by a real earlier dump
+        elif c.get("pre_kind") == "junk_big":
+            # a file longer than any dump of this case
+            old_bytes = b"stale tail of an earlier dump; " * 40000
         with open(out, "wb") as f:
-            f.write(OLD_CONTENT)
+            f.write(old_bytes)
         os.chmod(out, c["pre"])
     eff = {"frames": subst(c["sel"]["arg"], root), "variables": c["variables"], "exclude": c["exclude"]}
     for k in ("frames", "variables", "exclude"):
@@ -423,8 +436,20 @@ def _impl(c, tmp):
         try:
             if os.path.exists(out):
                 st = os.stat(out)
-                state, data, raw = read_back(out, values)
+                state, data, raw = read_back(out, values, prior.get("bytes", old_bytes))
                 fres["file"] = {"mode": stat.S_IMODE(st.st_mode), "state": state}
+                if data is not None:
+                    # bytes after the pickle: the file must hold exactly the new dump
+                    fres["file"]["trailing"] = TAIL.get("n", 0)
+                    tail = TAIL.get("bytes", b"")
+                    leaked = []
+                    if tail:
+                        fres["file"]["state"] = "data+tail"
+                        for blob_name, blob in prior.get("blobs", []):
+                            if blob and blob in tail:
+                                leaked.append(blob_name)
+                    fres["file"]["tail_holds"] = sorted(set(leaked))[:8]
+                    TAIL.clear()
                 if data is not None:
                     fres["saved"] = data
                     fres["queries"], fres["props"] = run_queries(out, c["queries"], values, raw)
@@ -432,6 +457,27 @@ def _impl(c, tmp):
                 fres["file"] = None
         finally:
             os.umask(um)
+
+    prior = {}
+
+    def prior_dump(exc):
+        """a first, larger save to the same path: every frame, no filter; then the mode of the case"""
+        try:
+            os.chmod(out, 0o644)
+            SF._save_frames_and_exception_info_to_file(
+                filename=out, frames=(1000, SF.FrameFormat.NUM), variables=None, exclude_variables=None, exception_obj=exc)
+            with open(out, "rb") as f:
+                prior["bytes"] = f.read()
+            raw0 = pickle.loads(prior["bytes"])
+            prior["blobs"] = [(n, b) for k, v in raw0.items() if isinstance(k, int) for n, b in v["variables"].items() if len(b) >= 12]
+            # make sure it is longer than the second dump can be
+            with open(out, "ab") as f:
+                f.write(b"\0" * 64)
+            prior["bytes"] += b"\0" * 64
+        except Exception:
+            with open(out, "wb") as f:
+                f.write(old_bytes)
+        os.chmod(out, c["pre"])
 
     rx = []
     real_search = re.search
@@ -517,6 +563,8 @@ def _impl(c, tmp):
         if c.get("exc_unpicklable"):
             exc.args = exc.args + (lambda: 0,)
         curframe = observe(exc)
+        if c.get("pre") is not None and c.get("pre_kind") == "prior_dump":
+            prior_dump(exc)
         sys.last_exc = exc
         sys.last_value = exc
         re.search = rec_search
